@@ -51,6 +51,14 @@ EvCBegin(at) == [E0 EXCEPT !.m = "OnCustomBegin", !.dt = at, !.at = at]
 EvChunk(n, more) == [E0 EXCEPT !.m = "OnArrayChunk", !.n = n, !.more = more]
 EvData(b)    == [E0 EXCEPT !.m = "OnArrayData", !.bytes = b]
 
+(* Generation filters (aspect isolation, DESIGN 5.8): which events are      *)
+(* offered in which state.                                                 *)
+FilterNone(s, e) == TRUE
+(* C12: vary keys only; every map value is null *)
+FilterKeys(s, e) == /\ CurRule(s) = "MapValue" => e = EvNull
+                    /\ CurRule(s) = "EndDocument" => e = EvED
+                    /\ CurRule(s) = "TopLevel" => e \in {EvMap, EvRT("a")}
+
 (* C10: structure.  One identifier, two keys, no arrays except a whole      *)
 (* string; limits far above usage.                                         *)
 AlphaStructA ==
